@@ -4,6 +4,7 @@ import Proofs.C14Stmt
 import Proofs.C14Conn
 import Proofs.C14Obs
 import Proofs.C14Live
+import Proofs.C14ConnLRU
 /-!
 # C14 — prepared statements (property theorems; sequential + logical core, and the session tier)
 
@@ -355,6 +356,55 @@ theorem C14_id_belongs (as : List (PConn.Action κ)) (s : PConn.State κ) (pre p
     refine ⟨f, h1, ?_⟩
     unfold removedBefore
     rw [← hH.ban c cl hc]; exact h2
+
+/-- **An id and the bind metadata used with it are one token, injectively.** `PConn.token id sig` (one length
+    byte, the id, the value widths) determines both the prepared id and the widths, for ids shorter than 256 bytes:
+    so "the frame's token was returned by a PREPARE of that statement" (`C14_id_belongs`, `C14_metadata_belongs`)
+    says that BOTH the id and the metadata the values were encoded with are that PREPARE's. -/
+theorem C14_token_injective (i₁ s₁ i₂ s₂ : List UInt8) (h₁ : i₁.length < 256) (h₂ : i₂.length < 256)
+    (h : PConn.token i₁ s₁ = PConn.token i₂ s₂) : i₁ = i₂ ∧ s₁ = s₂ := by
+  unfold PConn.token at h
+  injection h with hl ha
+  have hn : i₁.length = i₂.length := by
+    have := congrArg UInt8.toNat hl
+    simp [UInt8.toNat_ofNat'] at this
+    omega
+  exact List.append_inj ha hn
+
+/-- the two fields can be read back from a token -/
+theorem C14_untoken_token (i s : List UInt8) (h : i.length < 256) : PConn.untoken (PConn.token i s) = (i, s) := by
+  unfold PConn.token PConn.untoken
+  have : (UInt8.ofNat i.length).toNat = i.length := by simp [UInt8.toNat_ofNat']; omega
+  simp [this]
+
+/-- **Bind metadata belongs to the statement.** Whenever, in any schedule, the server receives a frame of call c
+    whose j-th prepared entry carries the id `id` with values encoded to the widths `sig`: a PREPARE of exactly
+    the j-th entry's key (host, keyspace, statement) was answered with that very id AND column types of those very
+    widths (and as many columns as the entry has bound values), by a flight that had not left the cache when the
+    call started / sent its previous frame - and any PREPARE answer (id', sig') that yields the same token is that
+    answer. So values are never encoded with the metadata of another statement's, host's or keyspace's PREPARE, nor
+    with the metadata of a superseded PREPARE of the same statement. -/
+theorem C14_metadata_belongs (as : List (PConn.Action κ)) (s : PConn.State κ) (pre post : List (Ev κ)) (c : Nat) (ids : List Id) (a : XAns)
+    (h : PConn.run (PConn.initB b) as = some (s, pre ++ Ev.exec c ids a :: post)) :
+    ∃ b es, Ev.start c b es ∈ pre ∧ ids.length = es.length ∧
+      ∀ (j : Nat) (e : κ × Nat) (id sig : List UInt8), es[j]? = some e → ids[j]? = some (PConn.token id sig) → id.length < 256 →
+        ∃ f, Ev.prep f e.1 (some (PConn.token id sig, e.2)) ∈ pre ∧ removedBefore pre c f = false ∧
+          ∀ id' sig', id'.length < 256 → PConn.token id' sig' = PConn.token id sig → id' = id ∧ sig' = sig := by
+  obtain ⟨b', es, h1, h2, h3⟩ := C14_id_belongs as s pre post c ids a h
+  refine ⟨b', es, h1, h2, ?_⟩
+  intro j e id sig he hid hlen
+  obtain ⟨f, hf, hr⟩ := h3 j e _ he hid
+  exact ⟨f, hf, hr, fun id' sig' hl' ht => C14_token_injective id' sig' id sig hl' hlen ht⟩
+
+/-- non-vacuity: the PREPARE of statement 7 answers id [1] with one int column (width 4); an EXECUTE that carries
+    id [1] and a 4-byte value is accepted, one whose value was encoded to 8 bytes (the metadata of some other
+    PREPARE) is rejected, and so is the id of another statement with the right width -/
+example : (Obs.run (Obs.init : OState Nat) [.start 0 false [(7, 1)], .prep 0 7 (some (PConn.token [1] [4], 1)),
+    .exec 0 [PConn.token [1] [4]] .ok, .ret 0 .ok]).isSome = true := by decide
+example : (Obs.run (Obs.init : OState Nat) [.start 0 false [(7, 1)], .prep 0 7 (some (PConn.token [1] [4], 1)),
+    .exec 0 [PConn.token [1] [8]] .ok]).isNone = true := by decide
+example : (Obs.run (Obs.init : OState Nat) [.start 0 false [(7, 1)], .start 1 false [(8, 1)], .prep 0 7 (some (PConn.token [1] [4], 1)),
+    .prep 1 8 (some (PConn.token [2] [4], 1)), .exec 0 [PConn.token [2] [4]] .ok]).isNone = true := by decide
 
 /-- **Single flight on connections.** In every schedule and at every point of it, the number of PREPAREs the
     server has received for a key is at most one more than the number of times an entry of that key left the
@@ -791,6 +841,149 @@ theorem C14_cancelled_can_return (s : PConn.State κ) (c : Nat) (cl : Caller κ)
   rcases hpc with ⟨f, hpc⟩ | ⟨a, hpc⟩ <;>
     exact ⟨{ s with callers := s.callers.set c { cl with pc := .abandoned } },
       by simp only [PConn.step, hc, hcan, hpc, if_true], rfl, rfl⟩
+
+/-- **Re-prepared when lost, on connections.** A query whose EXECUTE was answered UNPREPARED with the id of the cached,
+    completed PREPARE of its statement: acting on the answer removes exactly that entry from the cache (`R`), and the
+    retry's lookup then MISSES and publishes a new flight (number `flights.length`) that the caller itself must start
+    (pc `won`) - i.e. the driver prepares again; by `C14_id_belongs` the frame it sends afterwards carries an id
+    returned by a PREPARE of that statement which had not left the cache when it sent the previous frame, and by
+    `C14_waiter_gets_outcome` / `C14_no_caller_stuck` it gets there. (`C14_reprepare` is the same fact about the
+    sequential cache protocol.) -/
+theorem C14_reprepare_conn (s : PConn.State κ) (c f : Nat) (cl : Caller κ) (fl : PConn.Flight κ) (k : κ) (nv : Nat) (id : Id) (n : Nat)
+    (hc : s.callers[c]? = some cl) (hq : cl.batch = false) (hes : cl.entries = [(k, nv)])
+    (hpc : cl.pc = .answered (.unprep id)) (hk : s.cache k = some f) (hf : s.flights[f]? = some fl)
+    (hd : fl.done = true) (ha : fl.ans = some (some (id, n))) :
+    ∃ s1, PConn.step s (.finish c) = some (s1, [Ev.rm k f]) ∧ s1.cache k = none ∧
+      ∃ s2, PConn.step s1 (.lookup c) = some (s2, []) ∧ s2.cache k = some s.flights.length ∧
+        s2.flights.length = s.flights.length + 1 ∧
+        (s2.callers[c]?).map (·.pc) = some (PC.won s.flights.length) := by
+  have hclt : c < s.callers.length := (List.getElem?_eq_some_iff.1 hc).1
+  have hu : unprepKey s cl id = some k := by simp [unprepKey, hq, hes]
+  have hev : evictIfMatch s k id = removeKey s k := by
+    simp [evictIfMatch, hk, hf, hd, ha]
+  have hrm : removeKey s k = ({ s with cache := fun k' => if k' = k then none else s.cache k',
+                                       flights := s.flights.set f { fl with removed := true } }, [Ev.rm k f]) := by
+    simp [removeKey, hk, hf]
+  let s1 : PConn.State κ :=
+    { s with cache := fun k' => if k' = k then none else s.cache k',
+             flights := s.flights.set f { fl with removed := true },
+             callers := s.callers.set c { cl with got := [], pc := .start } }
+  have h1 : PConn.step s (.finish c) = some (s1, [Ev.rm k f]) := by
+    simp only [PConn.step, hc, hpc, hu, hev, hrm, s1]
+  have hc1 : s1.callers[c]? = some { cl with got := [], pc := .start } := by
+    simp [s1, hclt]
+  have hk1 : s1.cache k = none := by simp [s1]
+  refine ⟨s1, h1, hk1, ?_⟩
+  let s2 : PConn.State κ :=
+    { s1 with cache := fun k' => if k' = k then some s1.flights.length else s1.cache k',
+              flights := s1.flights ++ [{ key := k, ans := none, done := false, removed := false, spawned := false }],
+              callers := s1.callers.set c { cl with got := [], pc := .won s1.flights.length } }
+  have hlen : s1.flights.length = s.flights.length := by simp [s1]
+  have h2 : PConn.step s1 (.lookup c) = some (s2, []) := by
+    simp only [PConn.step, hc1, hes, List.length_nil, List.getElem?_cons_zero, hk1, if_true, s2]
+  refine ⟨s2, h2, ?_, ?_, ?_⟩
+  · simp [s2, hlen]
+  · simp [s2, hlen]
+  · have : c < s1.callers.length := by simp [s1, hclt]
+    simp [s2, this, hlen]
+
+
+/-- ... and an UNPREPARED answer carrying ANOTHER id than the cached PREPARE's leaves the entry where it is: nothing is
+    removed and the retry's lookup finds the same flight again. -/
+theorem C14_unprepared_other_id_conn (s : PConn.State κ) (c f : Nat) (cl : Caller κ) (fl : PConn.Flight κ) (k : κ) (nv : Nat) (id id' : Id) (n : Nat)
+    (hc : s.callers[c]? = some cl) (hq : cl.batch = false) (hes : cl.entries = [(k, nv)])
+    (hpc : cl.pc = .answered (.unprep id)) (hk : s.cache k = some f) (hf : s.flights[f]? = some fl)
+    (hd : fl.done = true) (ha : fl.ans = some (some (id', n))) (hne : id ≠ id') :
+    ∃ s1, PConn.step s (.finish c) = some (s1, []) ∧ s1.cache = s.cache ∧ s1.flights = s.flights ∧
+      ∃ s2, PConn.step s1 (.lookup c) = some (s2, []) ∧ s2.cache = s.cache ∧
+        (s2.callers[c]?).map (·.pc) = some (PC.waiting f) := by
+  have hclt : c < s.callers.length := (List.getElem?_eq_some_iff.1 hc).1
+  have hu : unprepKey s cl id = some k := by simp [unprepKey, hq, hes]
+  have hev : evictIfMatch s k id = (s, []) := by
+    simp [evictIfMatch, hk, hf, hd, ha, hne]
+  let s1 : PConn.State κ := { s with callers := s.callers.set c { cl with got := [], pc := .start } }
+  have h1 : PConn.step s (.finish c) = some (s1, []) := by
+    simp only [PConn.step, hc, hpc, hu, hev, s1]
+  have hc1 : s1.callers[c]? = some { cl with got := [], pc := .start } := by simp [s1, hclt]
+  refine ⟨s1, h1, rfl, rfl, ?_⟩
+  let s2 : PConn.State κ := { s1 with callers := s1.callers.set c { cl with got := [], pc := .waiting f } }
+  have hk1 : s1.cache k = some f := hk
+  have h2 : PConn.step s1 (.lookup c) = some (s2, []) := by
+    simp only [PConn.step, hc1, hes, List.length_nil, List.getElem?_cons_zero, hk1, if_true, s2]
+  refine ⟨s2, h2, rfl, ?_⟩
+  have : c < s1.callers.length := by simp [s1, hclt]
+  simp [s2, this]
+
+/-! ### the connection-level machine with the REAL cache (`PLru`: internal/lru instead of a finite map + environment evictions) -/
+
+/-- **Every schedule of the machine with the real LRU cache is a schedule of `PConn`** (the LRU's purges being
+    `PConn`'s `evict` actions) **with the same trace** - so the specification accepts it, and every theorem of this
+    section about `PConn` schedules (ids and metadata belong to the statement, single flight, failures not cached,
+    value count, contexts, no crash, ...) holds for every interleaving of executions over the real cache, for every
+    capacity (0 = unbounded, 1, ..., negative as coded). -/
+theorem C14_conn_lru_refines (cap : Int) (as : List (PLru.Action κ)) (s : PLru.State κ) (tr : List (Ev κ))
+    (h : PLru.run (PLru.init cap) as = some (s, tr)) :
+    (∃ as' : List (PConn.Action κ), PConn.run PConn.init as' = some (s.p, tr)) ∧
+    ∃ o, Obs.run (Obs.init : OState κ) tr = some o := by
+  obtain ⟨as', h'⟩ := C14ConnLRU.run_sim as _ _ _ h
+  exact ⟨⟨as', h'⟩, C14_conn_refines (b := false) as' s.p tr h'⟩
+
+/-- **The cache never exceeds its configured size, in any interleaving** - callers, flights' goroutines, server answers,
+    cancellations and UNPREPARED evictions interleaved arbitrarily over the real LRU: keys are unique, a positive
+    capacity is respected at every point, and the LRU holds exactly the entries of the finite-map cache the other
+    theorems speak about (same key ↦ same flight), so an entry purged while its PREPARE is in flight is an `evict` of
+    `PConn` and nothing else ever leaves. -/
+theorem C14_conn_lru_bound (cap : Int) (as : List (PLru.Action κ)) (s : PLru.State κ) (tr : List (Ev κ))
+    (h : PLru.run (PLru.init cap) as = some (s, tr)) :
+    s.lru.keys.Nodup ∧ s.lru.cap = cap ∧ (0 < cap → (s.lru.len : Int) ≤ cap) ∧ ∀ k, s.p.cache k = s.lru.find k := by
+  have hI0 : (PLru.init cap : PLru.State κ).lru.Inv := LRU.inv_new cap
+  obtain ⟨_, hL, hS⟩ := C14ConnLRU.run_good as _ _ _ C14ConnLRU.good_init hI0 (C14ConnLRU.sync_init cap) h
+  have hc := (C14ConnLRU.run_lru_inv as _ _ _ hI0 h).2
+  have hc' : s.lru.cap = cap := by rw [hc]; rfl
+  exact ⟨hL.1, hc', fun hp => by have := hL.2 (by rw [hc']; exact hp); rw [hc'] at this; exact this, hS⟩
+
+/-- **The machine with the real cache refuses no step**: in every reachable state, whatever the finite-map machine
+    can do next (any caller's lookup, spawn, observe, finish, abort; any flight's completion; any server answer) the
+    machine over the real LRU can do too - in particular a lookup that misses on a full cache always finds the LRU's
+    victim in the cache and purges it. So `PLru` is `PConn` with the evictions DETERMINED by the LRU, nothing less. -/
+theorem C14_conn_lru_progress (cap : Int) (as : List (PLru.Action κ)) (s : PLru.State κ) (tr : List (Ev κ))
+    (h : PLru.run (PLru.init cap) as = some (s, tr)) (a : PLru.Action κ)
+    (ha : (PConn.step s.p a.toP).isSome = true) : (PLru.step s a).isSome = true := by
+  have hI0 : (PLru.init cap : PLru.State κ).lru.Inv := LRU.inv_new cap
+  obtain ⟨_, hL, hS⟩ := C14ConnLRU.run_good as _ _ _ C14ConnLRU.good_init hI0 (C14ConnLRU.sync_init cap) h
+  obtain ⟨as', h'⟩ := C14ConnLRU.run_sim as _ _ _ h
+  have hst : s.p.strict = false := by rw [C14ConnLRU.run_strict as' _ _ _ h']; rfl
+  exact C14ConnLRU.step_progress s a hL hS hst ha
+
+/-- non-vacuity: cache of ONE entry, two statements. Call 0 publishes the flight of statement 7; call 1 looks up
+    statement 8: the LRU purges 7 while its PREPARE is still in flight (R:7:0), both PREPAREs are answered, both
+    calls execute with their own ids; then call 2 executes 7 again: not cached, a second PREPARE of 7 (flight 2)
+    purges 8. The cache holds one entry at the end. -/
+example :
+    ((PLru.run (PLru.init 1 : PLru.State Nat)
+      [.call false [(7, 1)], .lookup 0, .call false [(8, 1)], .lookup 1, .spawn 0, .spawn 1,
+       .srvPrepare 0 (some ([1], 1)), .srvPrepare 1 (some ([2], 1)), .complete 0, .complete 1,
+       .observe 0 .ok, .observe 1 .ok, .finish 0, .finish 1,
+       .call false [(7, 1)], .lookup 2, .spawn 2, .srvPrepare 2 (some ([3], 1)), .complete 2, .observe 2 .ok, .finish 2]).map
+        fun r => (r.2, r.1.lru.items)) =
+    some ([.start 0 false [(7, 1)], .start 1 false [(8, 1)], .rm 7 0, .prep 0 7 (some ([1], 1)), .prep 1 8 (some ([2], 1)),
+           .exec 0 [[1]] .ok, .exec 1 [[2]] .ok, .ret 0 .ok, .ret 1 .ok,
+           .start 2 false [(7, 1)], .rm 8 1, .prep 2 7 (some ([3], 1)), .exec 2 [[3]] .ok, .ret 2 .ok], [(7, 2)]) := by decide
+
+/-- a hit promotes: capacity 2, statements 7 and 8 cached, 7 executed again, then 9 arrives: 8 (least recently USED) goes -/
+example :
+    ((PLru.run (PLru.init 2 : PLru.State Nat)
+      [.call false [(7, 0)], .lookup 0, .spawn 0, .srvPrepare 0 (some ([1], 0)), .complete 0, .observe 0 .ok, .finish 0,
+       .call false [(8, 0)], .lookup 1, .spawn 1, .srvPrepare 1 (some ([2], 0)), .complete 1, .observe 1 .ok, .finish 1,
+       .call false [(7, 0)], .lookup 2, .observe 2 .ok, .finish 2,
+       .call false [(9, 0)], .lookup 3]).map fun r => r.1.lru.items) = some [(9, 2), (7, 0)] := by decide
+
+/-- there is no environment eviction in this machine, and UNPREPARED with the cached id removes the entry from the LRU -/
+example :
+    ((PLru.run (PLru.init 2 : PLru.State Nat)
+      [.call false [(7, 0)], .lookup 0, .spawn 0, .srvPrepare 0 (some ([1], 0)), .complete 0, .observe 0 (.unprep [1]), .finish 0]).map
+        fun r => (r.2, r.1.lru.items)) =
+    some ([.start 0 false [(7, 0)], .prep 0 7 (some ([1], 0)), .exec 0 [[1]] (.unprep [1]), .rm 7 0], []) := by decide
 
 /-! non-vacuity: concrete schedules -/
 
